@@ -320,7 +320,12 @@ func checkVals(c *structs.HealthCheck) []interface{} {
 	case api.HealthCritical:
 		st = 2
 	}
-	return []interface{}{st, c.ServiceID, c.ServiceName, strings.Join(c.ServiceTags, ","), c.Output, c.CreateIndex, c.ModifyIndex}
+	var out interface{} = c.Output
+	var on int
+	if _, err := fmt.Sscanf(c.Output, "out%d", &on); err == nil {
+		out = on
+	}
+	return []interface{}{st, c.ServiceID, c.ServiceName, strings.Join(c.ServiceTags, ","), out, c.CreateIndex, c.ModifyIndex}
 }
 
 func checkRow(c *structs.HealthCheck) Row {
@@ -473,7 +478,7 @@ func runQuery(s *state.Store, q Q, ws memdb.WatchSet) (idx uint64, rows []Row, e
 	case "node_services":
 		i, ns, er := s.NodeServices(ws, q.A, nil, "")
 		if ns != nil {
-			rows = append(rows, Row{K: []string{"node", ns.Node.Node}, V: nodeVals(ns.Node)})
+			rows = append(rows, Row{K: []string{"node"}, V: nodeVals(ns.Node)})
 			for _, sv := range ns.Services {
 				rows = append(rows, Row{K: []string{"svc", sv.ID}, V: nsVals(sv)})
 			}
@@ -514,8 +519,8 @@ func runQuery(s *state.Store, q Q, ws memdb.WatchSet) (idx uint64, rows []Row, e
 		return i, rows, er
 	case "coord":
 		i, cs, er := s.Coordinate(ws, q.A, nil)
-		for seg, c := range cs {
-			rows = append(rows, Row{K: []string{seg}, V: []interface{}{int(c.Vec[0])}})
+		for _, c := range cs {
+			rows = append(rows, Row{K: []string{q.A}, V: []interface{}{int(c.Vec[0])}})
 		}
 		return i, rows, er
 	case "cfg_get":
@@ -578,23 +583,29 @@ func runQuery(s *state.Store, q Q, ws memdb.WatchSet) (idx uint64, rows []Row, e
 }
 
 func cfgRow(ce structs.ConfigEntry) Row {
-	var c string
+	var c interface{}
 	switch x := ce.(type) {
 	case *structs.ServiceConfigEntry:
-		c = x.Protocol
+		c = map[string]int{"tcp": 0, "http": 1, "grpc": 2}[x.Protocol]
 	case *structs.ProxyConfigEntry:
-		c = fmt.Sprint(x.Config["k"])
+		var n int
+		fmt.Sscanf(fmt.Sprint(x.Config["k"]), "v%d", &n)
+		c = n
 	case *structs.ServiceIntentionsConfigEntry:
+		t := ""
 		for _, s := range x.Sources {
-			c += s.Name + ":" + string(s.Action) + ";"
+			t += s.Name + ":" + string(s.Action) + ";"
 		}
+		c = t
 	}
 	ri := ce.GetRaftIndex()
 	return Row{K: []string{ce.GetKind(), ce.GetName()}, V: []interface{}{c, ri.CreateIndex, ri.ModifyIndex}}
 }
 
 func pqRow(p *structs.PreparedQuery) Row {
-	return Row{K: []string{p.ID}, V: []interface{}{p.Session, p.Service.Service, p.CreateIndex, p.ModifyIndex}}
+	var n int
+	fmt.Sscanf(p.Service.Service, "svc%d", &n)
+	return Row{K: []string{p.ID}, V: []interface{}{p.Session, n, p.CreateIndex, p.ModifyIndex}}
 }
 
 func peerRow(p *pbpeering.Peering) Row {
@@ -933,38 +944,117 @@ func pollWS(ws memdb.WatchSet) bool {
 }
 
 // situation: a structured description of what the write did, used for finding signatures
+func connectName(ns *structs.NodeService) string {
+	switch {
+	case ns.Kind == structs.ServiceKindConnectProxy:
+		return "proxy:" + ns.Proxy.DestinationServiceName
+	case ns.Connect.Native:
+		return "native:" + ns.Service
+	}
+	return ""
+}
+
+// sharedName: some instance of the same service name elsewhere in the catalog has another Connect
+// destination than this one (proxies registered under one name for different destinations)
+func sharedName(s *state.Store, node string, ns *structs.NodeService) bool {
+	if connectName(ns) == "" {
+		return false
+	}
+	_, sns, _ := s.ServiceNodes(nil, ns.Service, nil, "")
+	for _, sn := range sns {
+		if sn.Node == node && sn.ServiceID == ns.ID {
+			continue
+		}
+		if connectName(sn.ToNodeService()) != connectName(ns) {
+			return true
+		}
+	}
+	return false
+}
+
+// staleCheck: a check on the node carries a ServiceName that is no longer the name of its service
+func staleCheck(s *state.Store, node string, only string) bool {
+	_, cs, _ := s.NodeChecks(nil, node, nil, "")
+	for _, c := range cs {
+		if c.ServiceID == "" || (only != "" && string(c.CheckID) != only) {
+			continue
+		}
+		_, ns, _ := s.NodeService(nil, node, c.ServiceID, nil, "")
+		if ns == nil || ns.Service != c.ServiceName {
+			return true
+		}
+	}
+	return false
+}
+
+// situation: a structured description of what the write did, used for finding signatures.  The
+// anomalous situations (a registration that changes the identity of an existing row in place, a
+// check that points at a stale service name, ...) take precedence over the plain write kind.
 func situation(s *state.Store, op *Op) string {
+	sit := op.Kind
 	switch op.Kind {
 	case "svc", "register":
-		if op.Svc == nil {
-			return op.Kind
+		if op.Svc != nil {
+			_, ns, _ := s.NodeService(nil, op.Node, op.Svc.ID, nil, "")
+			kind := "typical"
+			if op.Svc.Kind != "" {
+				kind = op.Svc.Kind
+			} else if op.Svc.Native {
+				kind = "connect-native"
+			}
+			switch {
+			case ns == nil:
+				sit = "service-new:" + kind
+			case ns.Service != op.Svc.Name:
+				return "service-id-renamed"
+			case connectName(ns) != connectName(mkService(op.Svc)):
+				return "service-connect-changed"
+			default:
+				sit = "service-update:" + kind
+			}
 		}
-		_, ns, _ := s.NodeService(nil, op.Node, op.Svc.ID, nil, "")
-		kind := "typical"
-		if op.Svc.Kind != "" {
-			kind = op.Svc.Kind
-		} else if op.Svc.Native {
-			kind = "connect-native"
+	}
+	switch op.Kind {
+	case "check", "register":
+		for _, c := range op.Checks {
+			_, hc, _ := s.NodeCheck(op.Node, types.CheckID(c.ID), nil, "")
+			if hc != nil && hc.ServiceID != c.Svc {
+				return "check-service-changed"
+			}
+			if hc != nil && staleCheck(s, op.Node, c.ID) {
+				return "check-stale-service-name"
+			}
 		}
-		if ns == nil {
-			return "service-new:" + kind
+	case "del_check":
+		if staleCheck(s, op.Node, op.ChkID) {
+			return "check-stale-service-name"
 		}
-		oldDest := ns.Proxy.DestinationServiceName
-		switch {
-		case ns.Service != op.Svc.Name:
-			return "service-id-renamed"
-		case string(ns.Kind) != op.Svc.Kind || oldDest != op.Svc.Dest || ns.Connect.Native != op.Svc.Native:
-			return "service-connect-changed"
-		}
-		return "service-update:" + kind
 	case "del_svc":
 		_, ns, _ := s.NodeService(nil, op.Node, op.SvcID, nil, "")
-		if ns != nil && (ns.Kind == structs.ServiceKindConnectProxy || ns.Connect.Native) {
-			return "del-connect-service"
+		if ns != nil {
+			if staleCheck(s, op.Node, "") {
+				return "check-stale-service-name"
+			}
+			if sharedName(s, op.Node, ns) {
+				return "del-connect-shared-name"
+			}
+			if connectName(ns) != "" {
+				return "del-connect-service"
+			}
 		}
-		return "del_svc"
+	case "del_node":
+		if staleCheck(s, op.Node, "") {
+			return "check-stale-service-name"
+		}
+		if _, nss, _ := s.NodeServices(nil, op.Node, nil, ""); nss != nil {
+			for _, ns := range nss.Services {
+				if sharedName(s, op.Node, ns) {
+					return "del-connect-shared-name"
+				}
+			}
+		}
 	}
-	return op.Kind
+	return sit
 }
 
 func runHistory(id int, seed int64, ext bool, nsteps int, given []*Op) *History {
@@ -1098,6 +1188,8 @@ type LoopCase struct {
 	Timed  bool       `json:"timed_out"`
 	Mode   string     `json:"mode"` // plain | notfound | notchanged
 	Oracle string     `json:"oracle"`
+	Wakes  []string   `json:"wakes"` // effective outcome of script[k]: fired | none | abandon
+	Kind   int        `json:"kind"` // how it returned: 0 index advanced 1 timeout 2 abandoned 3 non-blocking
 }
 
 // runLoop drives the real blockingquery.Query on a KV key with a scripted environment.
@@ -1124,7 +1216,7 @@ func runLoop(id int, r *rand.Rand) *LoopCase {
 	for i := 0; i < n; i++ {
 		lc.Script = append(lc.Script, []string{"change", "touch", "touch", "none", "abandon", "delete"}[r.Intn(6)])
 	}
-	fs := &fakeServer{s: s, timeout: 60 * time.Millisecond, shut: make(chan struct{})}
+	fs := &fakeServer{s: s, timeout: 150 * time.Millisecond, shut: make(chan struct{})}
 	opts := &structs.QueryOptions{MinQueryIndex: lc.Min}
 	var meta structs.QueryMeta
 	var lastVal []byte
@@ -1161,25 +1253,37 @@ func runLoop(id int, r *rand.Rand) *LoopCase {
 		close(done)
 	}()
 	// environment: after call k returned and the loop blocks, perform script[k-1]
+	envDone := make(chan struct{})
 	go func() {
+		defer close(envDone)
 		for k := range stepCh {
 			if k-1 >= len(lc.Script) {
 				continue
 			}
-			time.Sleep(8 * time.Millisecond)
+			time.Sleep(5 * time.Millisecond)
 			select {
 			case <-done:
 				return
 			default:
 			}
 			idx++
+			if a := lc.Script[k-1]; a == "none" || a == "abandon" {
+				lc.Wakes = append(lc.Wakes, a)
+			} else if a != "delete" {
+				lc.Wakes = append(lc.Wakes, "fired")
+			}
 			switch lc.Script[k-1] {
 			case "change":
 				s.KVSSet(idx, &structs.DirEntry{Key: "k", Value: []byte{byte(idx)}})
 			case "touch": // fires the watch (lock index bump through flags change is a change; use same-value rewrite of a sibling below the same radix node)
 				s.KVSSet(idx, &structs.DirEntry{Key: "k", Value: lastValOr(lastVal), Flags: idx})
 			case "delete":
+				if _, e, _ := s.KVSGet(nil, "k", nil); e == nil {
+					lc.Wakes = append(lc.Wakes, "none")
+					continue
+				}
 				s.KVSDelete(idx, "k", nil)
+				lc.Wakes = append(lc.Wakes, "fired")
 			case "abandon":
 				func() {
 					defer func() { recover() }()
@@ -1191,14 +1295,23 @@ func runLoop(id int, r *rand.Rand) *LoopCase {
 	<-done
 	el := time.Since(t0)
 	close(stepCh)
+	<-envDone
 	lc.Final = meta.Index
-	lc.Timed = el >= fs.timeout
+	lc.Timed = el >= fs.timeout-time.Millisecond
 	// direct oracle: returned => index > min, or timeout, or abandoned; and never index 0
 	abandoned := false
 	select {
 	case <-s.AbandonCh():
 		abandoned = true
 	default:
+	}
+	switch {
+	case lc.Min == 0:
+		lc.Kind = 3
+	case lc.Timed:
+		lc.Kind = 1
+	case abandoned:
+		lc.Kind = 2
 	}
 	if lc.Final == 0 {
 		lc.Oracle = "zero-index"
